@@ -59,7 +59,7 @@ func main() {
 			nv, _ = strconv.Atoi(fs.Arg(1))
 		}
 		e := &ev.Evidence{PropertyID: id, Tier: *tier, Seed: *seed, Level: "exploration",
-			Coverage: map[string]any{"evaluations": 0, "distinct_nontrivial": 0, "rule": "the monitor process ended abnormally; nothing can be claimed", "samples": []any{msg}},
+			Coverage:   map[string]any{"evaluations": 0, "distinct_nontrivial": 0, "rule": "the monitor process ended abnormally; nothing can be claimed", "samples": []any{msg}},
 			Violations: nv}
 		e.Write()
 		os.Exit(0)
